@@ -86,6 +86,14 @@ def run_case(c):
     elif k == "unit":
         u = unit(c)
         R.append(call("valid_beat_duration", {"u": c["u"], "f": c["f"]}, lambda: meter.valid_beat_duration(u), boolean, timeout=1))
+    elif k == "bigunit":
+        u = 2 ** c["k"] + c["d"]
+        if c["f"]:
+            u = float(u)
+        i = {"k": c["k"], "d": c["d"], "f": c["f"]}
+        R.append(call("valid_beat_duration_big", i, lambda: meter.valid_beat_duration(u), boolean, timeout=1))
+        for cnt in (4, 0):
+            R.append(call("is_valid_big", dict(i, c=cnt), lambda: meter.is_valid((cnt, u)), boolean, timeout=1))
     elif k == "meter":
         u = unit(c)
         i = {"c": c["c"], "u": c["u"], "f": c["f"]}
